@@ -87,17 +87,29 @@ def make_confstr(desc):
     return confstr
 
 
+def fs_bytes(s):
+    return os.fsencode(s).decode("latin-1")
+
+
 @contextlib.contextmanager
-def linux_env(confstr="RO", ctypes_="I", exe="X", policy="-", stderr="", calls=None):
+def linux_env(confstr="RO", ctypes_="I", exe="X", policy="-", stderr="", calls=None, loaders="*", stdout=None, exe_name="python", clear=True):
+    """loaders: which loader paths exist for subprocess.run: '*' / '' = every NUL-free path, else ',path1,path2' (bytes as latin-1).
+    The stand-in for subprocess.run raises what the real one raises for such an argv: ValueError for an embedded NUL,
+    FileNotFoundError for a path that does not exist."""
+    path = os.path.join(_TMP, exe_name)
     if exe[:1] == "F":
-        with open(_EXE, "wb") as f: f.write(s2b(exe[1:]))
-        path = _EXE
-    else:
-        path = os.path.join(_TMP, "missing")
+        with open(path, "wb") as f: f.write(s2b(exe[1:]))
+    else:                                      # no such file (the path stays the same: the musl probe is memoised by path)
+        with contextlib.suppress(FileNotFoundError): os.unlink(path)
+    existing = None if loaders in ("", "*") or loaders[:1] == "*" else plist(loaders)
 
     def run(argv, **kw):
         if calls is not None: calls.append(argv)
-        return types.SimpleNamespace(stderr=stderr, stdout=stderr, returncode=0, args=argv)
+        prog = argv[0]
+        if "\0" in prog: raise ValueError("embedded null byte")
+        if "check" not in kw and existing is not None and fs_bytes(prog) not in existing:      # the musl loader call (mac_platforms re-runs sys.executable with check=True)
+            raise FileNotFoundError(2, "No such file or directory", prog)
+        return types.SimpleNamespace(stderr=stderr, stdout=stderr if stdout is None else stdout, returncode=0, args=argv)
 
     with contextlib.ExitStack() as st:
         st.enter_context(patched(os, "confstr", make_confstr(confstr)))
@@ -108,23 +120,19 @@ def linux_env(confstr="RO", ctypes_="I", exe="X", policy="-", stderr="", calls=N
         pm = make_policy(policy)
         if pm is None: sys.modules.pop("_manylinux", None); sys.modules["_manylinux"] = None
         else: sys.modules["_manylinux"] = pm
-        clear_caches()
+        if clear: clear_caches()
         try:
             yield
         finally:
             for k, v in saved.items():
                 if v is _MISSING: sys.modules.pop(k, None)
                 else: sys.modules[k] = v
-            clear_caches()
+            if clear: clear_caches()
 
 
-def fs_bytes(s):
-    return os.fsencode(s).decode("latin-1")
-
-
-def obs_elf(data):
+def obs_elf(data, f=None):
     try:
-        e = ELFFile(io.BytesIO(data))
+        e = ELFFile(io.BytesIO(data) if f is None else f)
     except ELFInvalid:
         return "E"
     try:
@@ -164,12 +172,35 @@ def observe(cmd, args):
         with linux_env(confstr, ctypes_, exe, policy):
             return ",".join(_manylinux.platform_tags(plist(archs)))
     if cmd == "p.musl":
-        archs, exe, stderr = args
+        archs, exe, stderr = args[:3]
+        loaders = args[3] if len(args) > 3 else "*"          # args[4:6] = the limits of the file system / memory: model side only
         calls = []
-        with linux_env(exe=exe, stderr=stderr, calls=calls):
+        with linux_env(exe=exe, stderr=stderr, calls=calls, loaders=loaders):
             out = ",".join(_musllinux.platform_tags(plist(archs)))
         ld = "-" if not calls else "S" + fs_bytes(calls[0][0])
         return out + "|" + ld
+    if cmd == "p.elff":
+        path = os.path.join(_TMP, "image")
+        with open(path, "wb") as f: f.write(s2b(args[0]))
+        with open(path, "rb") as f:
+            return obs_elf(None, f)
+    if cmd == "p.probes":
+        archs, rest = plist(args[0]), args[1:]
+        out = []
+        clear_caches()
+        try:
+            for k in range(0, len(rest) - 5, 6):
+                key, confstr, ctypes_, exe, policy, stderr = rest[k:k + 6]
+                with linux_env(confstr, ctypes_, exe, policy, stderr, exe_name="python_" + key, clear=False):
+                    many_s = ",".join(_manylinux.platform_tags(archs))
+                    try:
+                        musl = ",".join(_musllinux.platform_tags(archs))
+                    except (ValueError, FileNotFoundError) as e:
+                        musl = "!EXC:" + type(e).__name__
+                out.append(many_s + "|" + musl)
+        finally:
+            clear_caches()
+        return ";".join(out)
     if cmd == "p.mac":
         return ",".join(tags.mac_platforms((int(args[0]), int(args[1])), args[2]))
     if cmd == "p.macdef":
@@ -180,16 +211,17 @@ def observe(cmd, args):
     if cmd == "p.ios":
         return ",".join(tags.ios_platforms((int(args[0]), int(args[1])), args[2]))
     if cmd == "p.linux":
-        is32, plat, confstr, ctypes_, exe, policy, stderr = args
-        with linux_env(confstr, ctypes_, exe, policy, stderr), patched(sysconfig, "get_platform", lambda: plat):
+        is32, plat, confstr, ctypes_, exe, policy, stderr = args[:7]
+        loaders = args[7] if len(args) > 7 else "*"
+        with linux_env(confstr, ctypes_, exe, policy, stderr, loaders=loaders), patched(sysconfig, "get_platform", lambda: plat):
             return ",".join(tags._linux_platforms(is32 == "T"))
     if cmd == "p.plat":
-        system, plat, confstr, ctypes_, exe, policy, stderr, macver, cpu, sub, iosrel, multiarch = args
-        with linux_env(confstr, ctypes_, exe, policy, stderr), patched(sysconfig, "get_platform", lambda: plat), \
+        system, plat, confstr, ctypes_, exe, policy, stderr, macver, cpu, sub, iosrel, multiarch = args[:12]
+        loaders = args[12] if len(args) > 12 else "*"
+        with linux_env(confstr, ctypes_, exe, policy, stderr, loaders=loaders, stdout=sub), patched(sysconfig, "get_platform", lambda: plat), \
              patched(platform, "system", lambda: system), patched(platform, "mac_ver", lambda: (macver, ("", "", ""), cpu)), \
              patched(platform, "ios_ver", lambda: ("iOS", iosrel, "iPhone", False)), \
-             patched(sys, "implementation", types.SimpleNamespace(name="cpython", _multiarch=multiarch)), \
-             patched(subprocess, "run", lambda argv, **kw: types.SimpleNamespace(stdout=sub, stderr=stderr, returncode=0)):
+             patched(sys, "implementation", types.SimpleNamespace(name="cpython", _multiarch=multiarch)):
             return ",".join(tags.platform_tags())
 
     # ---- laws of the statement evaluated directly on the implementation ----
@@ -215,6 +247,41 @@ def observe(cmd, args):
                 if v in ((2, 17), (2, 12), (2, 5)): exp.append({17: "manylinux2014", 12: "manylinux2010", 5: "manylinux1"}[v[1]] + "_" + archs[0])
             if lo != exp: return "manylinux: sequence differs from the statement's enumeration"
         return "ok"
+    if cmd == "law.p.many2":
+        # the TEXT of the statement, not the code's reading: floor per ARCHITECTURE (2.5 on x86_64/i686, 2.17 elsewhere), a newer glibc
+        # (any major) offers a superset, exact enumeration per architecture
+        archs, M, m, M2, m2, policy, exe = args
+        archs, M, m, M2, m2 = plist(archs), int(M), int(m), int(M2), int(m2)
+        lo, hi = many(archs, M, m, policy, exe), many(archs, M2, m2, policy, exe)
+        distinct = len(set(archs)) == len(archs)
+        for seq, lim in ((lo, (M, m)), (hi, (M2, m2))):
+            r = check_seq("manylinux", seq, many_ver, lim, distinct)
+            if r: return r
+            for t in seq:
+                a = next((x for x in sorted(set(archs), key=len, reverse=True) if t.endswith("_" + x)), None)
+                floor = (2, 5) if a in ("x86_64", "i686") else (2, 17)
+                if many_ver(t)[0] == 2 and many_ver(t) < floor: return "manylinux: tag below the per-architecture floor: " + t
+        if (M, m) <= (M2, m2) and not set(lo) <= set(hi):
+            return "manylinux: glibc %d.%d offers a tag that %d.%d does not: %s" % (M, m, M2, m2, sorted(set(lo) - set(hi))[0])
+        if policy == "-" and lo and distinct:
+            exp = []
+            for a in archs:
+                floor = (2, 5) if a in ("x86_64", "i686") else (2, 17)
+                for v in [(M, x) for x in range(m, -1, -1)] + [(MM, x) for MM in range(M - 1, 1, -1) for x in range(50, -1, -1)]:
+                    if v[0] == 2 and v < floor: continue
+                    exp.append("manylinux_%d_%d_%s" % (v + (a,)))
+                    if v in ((2, 17), (2, 12), (2, 5)): exp.append({17: "manylinux2014", 12: "manylinux2010", 5: "manylinux1"}[v[1]] + "_" + a)
+            if lo != exp: return "manylinux: sequence differs from the statement's enumeration (per-architecture floor)"
+        return "ok"
+    if cmd == "law.p.noraise":
+        # _musllinux.platform_tags(archs) yields a (possibly empty) sequence whatever sys.executable holds and whatever loader it names
+        archs, exe, stderr, loaders = args
+        with linux_env(exe=exe, stderr=stderr, loaders=loaders):
+            try:
+                list(_musllinux.platform_tags(plist(archs)))
+            except Exception as e:
+                return "musllinux platform_tags raised " + type(e).__name__
+        return "ok"
     if cmd == "law.p.mac":
         M, m, M2, m2, arch = int(args[0]), int(args[1]), int(args[2]), int(args[3]), args[4]
         key = lambda t: tuple(map(int, t.split("_")[1:3]))
@@ -238,14 +305,18 @@ def observe(cmd, args):
             if any(a <= b for a, b in zip(vs, vs[1:])): return "iOS: not strictly newest-first"
             if M >= 12 and (not seq or seq[0] != "ios_%d_%d_%s" % (M, m, ma.replace("-", "_"))) and seq is lo: return "iOS: running version not first"
             if any(key(t) < (12, 0) for t in seq): return "iOS: below the 12.0 floor"
-        if ((M == M2 and m <= m2) or (M < M2 and m <= 9)) and not set(lo) <= set(hi): return "iOS: %d.%d offers a tag that %d.%d does not" % (M, m, M2, m2)
+        # the text: a newer system offers a superset (no guard on the minor; minors above 9 are the finding iOS-minor)
+        if (M, m) <= (M2, m2) and not set(lo) <= set(hi): return "iOS: %d.%d offers a tag that %d.%d does not" % (M, m, M2, m2)
         return "ok"
     if cmd == "law.p.musl":
         archs, exe, M, m, m2 = plist(args[0]), args[1], int(args[2]), int(args[3]), int(args[4])
         res = []
         for x in (m, m2):
             with linux_env(exe=exe, stderr="musl libc (x)\nVersion %d.%d.3\nDynamic Program Loader" % (M, x)):
-                res.append(list(_musllinux.platform_tags(archs)))
+                try:
+                    res.append(list(_musllinux.platform_tags(archs)))
+                except ValueError:               # a PT_INTERP path with an embedded NUL: the subject of law.p.noraise, not of this law
+                    return "ok"
         lo, hi = res
         key = lambda t: tuple(map(int, t.split("_")[1:3]))
         for seq, lim in ((lo, (M, m)), (hi, (M, m2))):
